@@ -1,7 +1,7 @@
 (* C14 — property theorems: images bit-exact, numbered, on the right unit.
    Statements closed by `exact`, each followed by Print Assumptions. *)
 From Coq Require Import ZArith List Bool Lia.
-From S2T Require Import Lib.PyStr C01.Loops C14.Model C14.ProofsPath C14.ProofsSniff C14.ProofsNum.
+From S2T Require Import Lib.PyStr C01.Loops C14.Model C14.ProofsPath C14.ProofsSniff C14.ProofsNum C14.ProofsPass.
 Import ListNotations.
 
 (* ================= 1. part-name resolution (resolve_part_name, used by docx/pptx/xlsx/epub) ================= *)
@@ -305,3 +305,73 @@ Theorem C14_docx_unit_images_in_document :
     In x (docx_unit_images anchors imgs paras) -> In x imgs.
 Proof. exact docx_unit_image_in_document. Qed.
 Print Assumptions C14_docx_unit_images_in_document.
+
+(* ================= 5. the ODT and ODG passes (two-pass / de-duplicating extraction) ================= *)
+(* ODT: text-box pictures first, then the other frames, hrefs already seen skipped — numbers are 1..n *)
+Theorem C14_odt_numbers :
+  forall (names : list str) (u : list placement),
+    map fst (odt_images names u) = zseq 0 (List.length (odt_images names u)).
+Proof. exact odt_images_numbers. Qed.
+Print Assumptions C14_odt_numbers.
+
+(* ODG: one de-duplicating pass, a record for every distinct href — numbers are 1..n *)
+Theorem C14_odg_numbers :
+  forall (names : list str) (u : list placement),
+    let '(o, _, _) := odf_dedupe names [] true 0 u in map fst o = zseq 0 (List.length o).
+Proof. exact odg_images_numbers. Qed.
+Print Assumptions C14_odg_numbers.
+
+(* ODT order: a captioned (text-box) picture placed after a plain one is returned and numbered before it *)
+Theorem C14_odt_order_refuted :
+  exists (names : list str) (u : list placement),
+    map snd (odt_images names u) <> flat_map (found placement str (fetch_odf names)) u.
+Proof.
+  exists [s "Pictures/a.png"; s "Pictures/b.jpg"], [(s "Pictures/a.png", 0); (s "Pictures/b.jpg", 1)].
+  vm_compute. discriminate.
+Qed.
+Print Assumptions C14_odt_order_refuted.
+
+Theorem C14_odt_order_partial :
+  forall (names : list str) (u : list placement),
+    forallb (flag_is 0) u = true -> odt_images names u = fst (fst (odf_dedupe names [] false 0 u)).
+Proof. exact odt_images_no_textbox. Qed.
+Print Assumptions C14_odt_order_partial.
+Example C14_odt_order_partial_nonvacuous : forallb (flag_is 0) [(s "Pictures/a.png", 0); (s "Pictures/b.jpg", 0)] = true.
+Proof. reflexivity. Qed.
+Print Assumptions C14_odt_order_partial_nonvacuous.
+
+(* "no image that the document does not contain" is false of the ODF passes: an external link is kept as a record
+   without bytes (member ""), and ODG also keeps one for a member that is missing from the package *)
+Theorem C14_odf_placeholders_refuted :
+  (forall names f, fetch_odf names (s "http://example.com/x.png", f) = Some [])
+  /\ (exists names u, let '(o, _, _) := odf_dedupe names [] true 0 u in In (1, []) o /\ names = []).
+Proof.
+  split; [intros names f; reflexivity|].
+  exists [], [(s "Pictures/gone.png", 0)]. vm_compute. split; [left; reflexivity | reflexivity].
+Qed.
+Print Assumptions C14_odf_placeholders_refuted.
+
+(* ================= 6. content type from the extension (docx / pptx / xlsx) ================= *)
+Open Scope N_scope.
+(* whatever precedes the last dot, an extension that lower-cases to a key of the table gets the table's type *)
+Theorem C14_ooxml_content_type :
+  forall (lower : str -> str) (tbl : list (str * str)) (pre ext ext' ct : str),
+    existsb (N.eqb DOT) ext = false -> lower ext = ext' -> assoc ext' tbl = Some ct ->
+    ooxml_content_type lower tbl (pre ++ DOT :: ext) = ct.
+Proof. exact ooxml_content_type_of_ext. Qed.
+Print Assumptions C14_ooxml_content_type.
+
+Theorem C14_xlsx_content_type :
+  forall (lower : str -> str) (tbl : list (str * str)) (dir stem ext ext' ct : str),
+    existsb (N.eqb SLASH) (stem ++ DOT :: ext) = false -> existsb (N.eqb DOT) ext = false ->
+    lower ext = ext' -> assoc ext' tbl = Some ct ->
+    xlsx_content_type lower tbl (dir ++ SLASH :: stem ++ DOT :: ext) = ct.
+Proof. exact xlsx_content_type_of_ext. Qed.
+Print Assumptions C14_xlsx_content_type.
+
+(* the type comes from the NAME: a PNG stored under an extension outside the table is labelled "image/<ext>" *)
+Theorem C14_content_type_unknown_extension_refuted :
+  exists (tbl : list (str * str)) (target : str),
+    assoc (s "png") tbl = Some (s "image/png") /\ ooxml_content_type (fun x => x) tbl target <> s "image/png".
+Proof. exists [(s "png", s "image/png")], (s "media/image1.dat"). split; [reflexivity | vm_compute; discriminate]. Qed.
+Print Assumptions C14_content_type_unknown_extension_refuted.
